@@ -8,6 +8,7 @@ import random
 
 import torch
 
+from .. import ride  # noqa: E402
 from .. import bmgen, probes
 
 ID = "C03"
@@ -21,7 +22,7 @@ ASSUMPTIONS = [
     "Chen's relation for the Levy area is demanded against exactly the stored pieces the tree used for the "
     "query (the library documents that Davie/Foster areas are not consistent across independent splits)",
 ]
-REQUIRED_COUNTERS = ["triples", "multi_piece_queries", "evictions", "refinements", "A_chen_checked",
+REQUIRED_COUNTERS = ["ride_c03_additivity_triples", "ride_c03_antisymmetry", "triples", "multi_piece_queries", "evictions", "refinements", "A_chen_checked",
                      "wrapper_interval", "wrapper_path", "wrapper_tree", "wrapper_reverse", "zero_len", "reverse_vs_base_checks"]
 THRESHOLDS = {"f64": 1e-10, "f32": 5e-4}
 CASE_TIMEOUT = 900
@@ -37,6 +38,7 @@ def cases(tier, seed):
         crng = random.Random(f"C03-{seed}-{i}")
         cfg = bmgen.random_config(crng, wrappers=(wr,))
         out.append({"key": f"c{i}", "cfg": cfg, "hseed": crng.randrange(10 ** 9), "cost": 1.0})
+    out += ride.cases_for("C03", tier, seed)  # the repository's own tests under passive monitors
     return out
 
 
@@ -62,6 +64,8 @@ def _err(x, y):
 
 
 def run_case(case):
+    if case.get("kind") == "ride":
+        return ride.run_case(case)
     cfg = case["cfg"]
     rng = random.Random(case["hseed"])
     kind, qs, step = bmgen.history(cfg, rng)
